@@ -293,6 +293,15 @@ class Gen(c03_progs.Gen):
                 self.lines.append('%swhile (%s) { out_l(7); break; }' % (ind, n))
                 self.lines.append('%sfor (int q = 0; %s && q < 2; q++) out_l(q);' % (ind, n))
                 self.lines.append('%sdo out_l(9); while (!(%s) && 0);' % (ind, n))
+            # conditions that are VALUES of 1- and 2-byte types (the bits above are whatever the operand had)
+            st1, st2, st3 = rng.choice(SUBINT), rng.choice(SUBINT), rng.choice(SUBINT + ['_Bool'])
+            e1 = '(%s)(%s << %d)' % (st1, self.iexpr(env, 'unsigned', 2), rng.choice([8, 16, 7, 15]))
+            e2 = '(%s)(%s * 256u)' % (st2, self.iexpr(env, 'unsigned', 1))
+            e3 = '(%s)(%s | 0x10000u)' % (st3, self.iexpr(env, 'unsigned', 1))
+            self.lines.append('%sif (%s) out_l(21); else out_l(22);' % (ind, e1))
+            self.lines.append('%sout_l((%s ? 3 : 4) + (%s && %s) * 8 + (%s || %s) * 16 + !%s * 32);' % (ind, e2, e1, e3, e2, e1, e3))
+            self.lines.append('%swhile (%s) { out_l(23); break; }' % (ind, e3))
+            self.lines.append('%sfor (int q = 0; %s && q < 1; q++) out_l(24);' % (ind, e2))
             self.features.add('conditions')
 
     def stmts(self, env, ind, budget, inloop=False, depth=0):
@@ -309,7 +318,7 @@ class Gen(c03_progs.Gen):
 
 def gen_program(rng, size=3):
     g = Gen(rng, size)
-    src = g.program()
+    src = g.program().replace('\\x7f', '\\177')      # a hex escape swallows following hex digits (clang: out of range)
     return src, {'globals': g.globals, 'features': sorted(g.features)}
 
 
